@@ -7,6 +7,7 @@ three places where the engine reads a *set* of rows whose listing order is arbit
 -/
 import Mistral.Lemmas.Engine
 import Mistral.Props.C05
+import Mistral.Props.C05Causal
 
 namespace Mistral.Props.C02
 open Mistral Mistral.Engine Mistral.Join
@@ -78,15 +79,40 @@ theorem verdict_order_independent (w1 w2 : World) (hwf : w1.wf = w2.wf) (hp : w1
       · rfl
       · split <;> rfl
 
-/-- the version merge at a join does not depend on which branch is listed first (re-export of the
-    C05 theorem, which is the data-flow half of this property) -/
-theorem merge_order_independent (a b : Ctx.Ctx)
-    (hfa : Ctx.FlatD (Ctx.stripInternal a.data)) (hua : Ctx.UniqueKeys (Ctx.stripInternal a.data))
-    (hfb : Ctx.FlatD (Ctx.stripInternal b.data)) (hub : Ctx.UniqueKeys (Ctx.stripInternal b.data))
-    (k : String)
-    (hcons : ∀ va vb, Dict.get? (Ctx.stripInternal a.data) k = some va →
-      Dict.get? (Ctx.stripInternal b.data) k = some vb → Ctx.ver a.vers k = Ctx.ver b.vers k → va = vb) :
-    Dict.get? (Ctx.mergeByVersion a b).data k = Dict.get? (Ctx.mergeByVersion b a).data k :=
-  Mistral.Props.C05.merge_order_independent_partial a b hfa hua hfb hub k hcons
+/-- the version merge at a join does not depend on which branch is listed first, for ARBITRARILY NESTED
+    values, at every leaf path the two contexts hold (or lack the variable of): both merge orders give the
+    same leaf and the same version whenever equal versions carry equal leaves (no two concurrent branches
+    published the path) - re-export of the C05 theorem, which is the data-flow half of this property -/
+theorem merge_order_independent (a b : Ctx.Ctx) (k0 : String) (rest : List String)
+    (hk : k0 ≠ "__task_execution") (ha : Hist.ShapeOK k0 rest a) (hb : Hist.ShapeOK k0 rest b)
+    (hcons : ∀ va vb, Hist.getPath a.data k0 rest = some va → Hist.getPath b.data k0 rest = some vb →
+      Ctx.ver a.vers (Hist.keyOf k0 rest) = Ctx.ver b.vers (Hist.keyOf k0 rest) → va = vb) :
+    Hist.getPath (Ctx.mergeByVersion a b).data k0 rest = Hist.getPath (Ctx.mergeByVersion b a).data k0 rest ∧
+    Ctx.ver (Ctx.mergeByVersion a b).vers (Hist.keyOf k0 rest) =
+      Ctx.ver (Ctx.mergeByVersion b a).vers (Hist.keyOf k0 rest) :=
+  Mistral.Props.C05.merge_order_independent_partial a b k0 rest hk ha hb hcons
+
+/-- ... nor on how a join with three or more inbound tasks groups them (no tie hypothesis) -/
+theorem merge_grouping_independent (a b c : Ctx.Ctx) (k0 : String) (rest : List String)
+    (hk : k0 ≠ "__task_execution") (ha : Hist.ShapeOK k0 rest a) (hb : Hist.ShapeOK k0 rest b)
+    (hc : Hist.ShapeOK k0 rest c) :
+    Hist.getPath (Ctx.mergeByVersion (Ctx.mergeByVersion a b) c).data k0 rest =
+      Hist.getPath (Ctx.mergeByVersion a (Ctx.mergeByVersion b c)).data k0 rest :=
+  (Mistral.Props.C05.merge_associative a b c k0 rest hk ha hb hc).1
+
+/-- over WHOLE histories: two runs of the same fork/join DAG that list the rows of every join in different
+    orders show every task the same leaf whenever its publishers have a causally latest one (re-export of
+    C05Causal.visible_order_independent) -/
+theorem published_data_order_independent (h1 h2 : List Hist.Task)
+    (s : Hist.SameUpToOrder h1 h2)
+    (k0 : String) (rest : List String) (hk : k0 ≠ "__task_execution")
+    (hs : Hist.StableHist k0 rest h1)
+    (i : Nat) (r1 r2 : Hist.Row) (hr1 : (Hist.runRows h1)[i]? = some r1) (hr2 : (Hist.runRows h2)[i]? = some r2)
+    (qs : Nat) (ts : Hist.Task) (hq : Hist.Anc h1 qs i) (hts : h1[qs]? = some ts)
+    (hp : Hist.Publishes k0 ts)
+    (hmax : ∀ q' t', Hist.Anc h1 q' i → h1[q']? = some t' →
+      Hist.Publishes k0 t' → q' = qs ∨ Hist.Anc h1 q' qs) :
+    Hist.leafAt r1.inb.data k0 rest = Hist.leafAt r2.inb.data k0 rest :=
+  Mistral.Props.C05Causal.visible_order_independent h1 h2 s k0 rest hk hs i r1 r2 hr1 hr2 qs ts hq hts hp hmax
 
 end Mistral.Props.C02
